@@ -29,6 +29,7 @@ for d in sorted(glob.glob(src + "/m*")):
         meta = json.load(open(os.path.join(d, "meta.json")))
     except Exception:
         meta = {"property": prop}
+    used = res.pop("_base", base)      # tools/try_seed.py judges on /repo's HEAD when the patch applies there
     det = [p for p, v in res.items() if v.get("rc") == 1 and any(x.startswith("VIOLATION") for x in v.get("lines", []))]
     try:
         old = json.load(open(os.path.join(dst, "meta.json")))
@@ -36,9 +37,10 @@ for d in sorted(glob.glob(src + "/m*")):
             meta["integrator_confirmation"] = old["integrator_confirmation"]
     except Exception:
         pass
-    meta["base_commit"] = base
+    meta.setdefault("written_against", meta.get("base_commit", base))
+    meta["base_commit"] = used
     meta["confirmed_by_integrator"] = "patch applied to a scratch worktree at %s; `tools/try_seed.py seeded/%s-%s %s %s` on %s" % (
-        base, prop, i, base, " ".join([prop] + others), datetime.datetime.utcnow().strftime("%Y-%m-%d %H:%M UTC"))
+        used, prop, i, used, " ".join([prop] + others), datetime.datetime.utcnow().strftime("%Y-%m-%d %H:%M UTC"))
     meta["detected_by"] = det
     meta["detection"] = {p: v.get("lines", [])[:4] for p, v in res.items()}
     # first concrete replay lines, for the record
